@@ -23,6 +23,13 @@ static spif_const_class_t v_class = {
     (spif_func_t) v_show, (spif_func_t) v_comp, (spif_func_t) v_dup, (spif_func_t) v_type
 };
 spif_class_t vobj_class = &v_class;
+/* a second class with the same methods: objects of the two classes compare with each other by key, as a str and a url do by text */
+static spif_const_class_t v2_class = {
+    (spif_classname_t) "!vobj2_t!",
+    (spif_func_t) v_new, (spif_func_t) v_init, (spif_func_t) v_done, (spif_func_t) v_del,
+    (spif_func_t) v_show, (spif_func_t) v_comp, (spif_func_t) v_dup, (spif_func_t) v_type
+};
+spif_class_t vobj2_class = &v2_class;
 
 void vobj_reset(void) { vobj_dups = vobj_dels = vobj_comps = vobj_live = 0; next_serial = 0; memset(live_serial, 0, sizeof(live_serial)); }
 int vobj_is_live_serial(long s) { return s > 0 && s < MAXSER && live_serial[s]; }
@@ -30,7 +37,7 @@ int vobj_is_live_serial(long s) { return s > 0 && s < MAXSER && live_serial[s]; 
 int vobj_valid(const void *p)
 {
     const struct vobj_struct *v = p;
-    return p && sa_readable(p, sizeof(*v)) && v->magic == VOBJ_MAGIC && v->cls == vobj_class;
+    return p && sa_readable(p, sizeof(*v)) && v->magic == VOBJ_MAGIC && (v->cls == vobj_class || v->cls == vobj2_class);
 }
 static vobj_t alloc_v(long key, long root)
 {
@@ -43,8 +50,9 @@ static vobj_t alloc_v(long key, long root)
     return v;
 }
 vobj_t vobj_new(long key) { return alloc_v(key, 0); }
+vobj_t vobj_new2(long key) { vobj_t v = alloc_v(key, 0); v->cls = vobj2_class; return v; }
 static vobj_t v_new(void) { return alloc_v(0, 0); }
-static spif_bool_t v_init(vobj_t self) { self->cls = vobj_class; self->magic = VOBJ_MAGIC; return TRUE; }
+static spif_bool_t v_init(vobj_t self) { if (self->cls != vobj2_class) self->cls = vobj_class; self->magic = VOBJ_MAGIC; return TRUE; }
 static spif_bool_t v_done(vobj_t self) { (void)self; return TRUE; }
 static spif_bool_t v_del(vobj_t self)
 {
@@ -80,6 +88,6 @@ static vobj_t v_dup(vobj_t self)
 {
     if (!vobj_valid(self)) sim_fail("INVARIANT(dup-on-dead-element)", "the library duplicated an element that is not live");
     vobj_dups++;
-    return alloc_v(self->key, self->root);
+    { vobj_t c = alloc_v(self->key, self->root); c->cls = self->cls; return c; }
 }
-static spif_classname_t v_type(vobj_t self) { (void)self; return (spif_classname_t) v_class.classname; }
+static spif_classname_t v_type(vobj_t self) { return (spif_classname_t) (self && self->cls == vobj2_class ? v2_class.classname : v_class.classname); }
